@@ -78,7 +78,7 @@ def fn1 (id : String) : Option (CType × CType × (Cell → Cell)) :=
   | "i.str" => some (.int, .string, fun c => match c with | .int x => .str (some (intStr x)) | y => y)
   | "i.half" => some (.int, .float, fun c => match c with | .int x => .float (fDiv (fOfInt (Int.tmod x 1024)) (fOfInt 2)) | y => y)
   | "f.neg" => some (.float, .float, fun c => match c with | .float b => .float (b ^^^ F64.signBit) | y => y)
-  | "f.isneg" => some (.float, .bool, fun c => match c with | .float b => .bool (F64.sign b) | y => y)
+  | "f.isneg" => some (.float, .bool, fun c => match c with | .float b => .bool (!F64.isNaN b && F64.sign b) | y => y)
   | "f.sign" => some (.float, .int, fun c => match c with
       | .float b => .int (if F64.isNaN b then 7 else if F64.key b < 0 then -1 else if F64.key b > 0 then 1 else 0) | y => y)
   | "b.not" => some (.bool, .bool, fun c => match c with | .bool b => .bool (!b) | y => y)
